@@ -1,1 +1,118 @@
-import Simfile.Spec.Group
+/-
+C10 — ungroup_notes after group_notes returns the surviving notes, in order.
+Property theorems only; helper lemmas live in Simfile/Lemmas/Ungroup*.lean.
+-/
+import Simfile.Lemmas.UngroupJoin
+import Simfile.Props.C09
+namespace Simfile.C10
+open Simfile
+
+/-- without joining, the round trip returns the notes of the included types, whatever their order,
+players or keysounds, and whatever the ungroup policy -/
+theorem roundtrip_join_off (o : GOpts) (ns : List Note) (p : Orphan) (hj : o.join = false)
+    (hmode : o.sameBeat ≠ .joinByType) :
+    (groupNotes o ns).bind (ungroupNotes p) = .ok (Spec.survivors o ns) := by
+  rw [groupNotes]
+  simp only [hj, Bool.false_eq_true, if_false, bind, Except.bind, pure, Except.pure, ungroupNotes]
+  rw [Ungroup.rows_flatten _ hmode, Ungroup.ungroup_plain]
+  simp [Spec.survivors, hj]
+
+/-- a single-player stream in strictly increasing position order whose tails carry no keysound
+(`ungroup_notes` rebuilds a tail from its head: same player, same column, no keysound) -/
+structure SortedStream (ns : List Note) : Prop where
+  sorted : ns.Pairwise fun a b => keyLt a.key b.key = true
+  onePlayer : ∀ a ∈ ns, ∀ b ∈ ns, a.player = b.player
+  tailsPlain : ∀ n ∈ ns, n.ntype = cTAIL → n.keysound = none
+
+/-- whenever `group_notes` does not raise, `ungroup_notes` (with any orphan policy, which never comes
+into play) restores exactly the surviving notes — the included notes minus the dropped orphans — in
+order; every option combination except same-beat joining by type, which reorders rows -/
+theorem roundtrip (o : GOpts) (ns : List Note) (hs : SortedStream ns) (hmode : o.sameBeat ≠ .joinByType)
+    (p : Orphan) (g : List (List GNote)) (hg : groupNotes o ns = .ok g) :
+    ungroupNotes p g = .ok (Spec.survivors o ns) := by
+  cases hj : o.join with
+  | false =>
+    have := roundtrip_join_off o ns p hj hmode
+    rw [hg] at this
+    exact this
+  | true =>
+    have hnd : ns.Nodup := hs.sorted.imp fun {a b} h e => by
+      subst e; rw [Ungroup.keyLt_irrefl] at h; cases h
+    rw [C09.group_refines_spec o ns hnd] at hg
+    unfold Spec.groupSpec at hg
+    simp only [hj, if_true] at hg
+    cases hS : Spec.joinSpec o (ns.filter fun n => o.incl.contains n.ntype) with
+    | error e => rw [hS] at hg; cases hg
+    | ok S =>
+      rw [hS] at hg
+      have hg' := Except.ok.inj hg
+      rw [← hg', Ungroup.survivors_eq o ns hj]
+      exact Ungroup.ungroup_joinSpec o p _ S (hs.sorted.sublist List.filter_sublist)
+        (fun a ha b hb => hs.onePlayer a (List.mem_of_mem_filter ha) b (List.mem_of_mem_filter hb))
+        (fun n hn => hs.tailsPlain n (List.mem_of_mem_filter hn)) hS _ hmode
+
+/-- the same, in one line -/
+theorem roundtrip_bind (o : GOpts) (ns : List Note) (hs : SortedStream ns) (hmode : o.sameBeat ≠ .joinByType)
+    (p : Orphan) (hok : ∀ e, groupNotes o ns ≠ .error e) :
+    (groupNotes o ns).bind (ungroupNotes p) = .ok (Spec.survivors o ns) := by
+  cases hg : groupNotes o ns with
+  | error e => exact absurd hg (hok e)
+  | ok g => exact roundtrip o ns hs hmode p g hg
+
+/-! ### non-vacuity: a concrete stream meeting the hypotheses, and why they are there -/
+
+private def nt (b : Rat) (c : Nat) (t : Char) : Note := { beat := b, column := c, ntype := t }
+
+/-- two overlapping holds (columns 0 and 1), a roll head interrupted by a tap (column 2),
+an orphan tail (column 3), a mine on the same beat, and a hold that is never closed (column 0) -/
+private def exStream : List Note :=
+  [nt 0 0 cHOLD, nt 1 1 cHOLD, nt 2 0 cTAIL, nt 3 1 cTAIL, nt 4 2 cROLL, nt 5 2 cTAP, nt 6 1 cMINE,
+   nt 6 3 cTAIL, nt 7 0 cHOLD]
+
+private def exOpts (oh ot : Orphan) (m : SameBeat) : GOpts :=
+  { incl := [cTAP, cHOLD, cROLL, cTAIL, cMINE], join := true, orphanHead := oh, orphanTail := ot, sameBeat := m }
+
+example : SortedStream exStream := ⟨by decide +kernel, by decide +kernel, by decide +kernel⟩
+example : (groupNotes (exOpts .drop .keep .joinAll) exStream).bind (ungroupNotes .raise) =
+    .ok [nt 0 0 cHOLD, nt 1 1 cHOLD, nt 2 0 cTAIL, nt 3 1 cTAIL, nt 5 2 cTAP, nt 6 1 cMINE, nt 6 3 cTAIL] := by
+  decide +kernel
+example : Spec.survivors (exOpts .drop .keep .joinAll) exStream =
+    [nt 0 0 cHOLD, nt 1 1 cHOLD, nt 2 0 cTAIL, nt 3 1 cTAIL, nt 5 2 cTAP, nt 6 1 cMINE, nt 6 3 cTAIL] := by
+  decide +kernel
+example : ∀ e, groupNotes (exOpts .keep .drop .keepSeparate) exStream ≠ .error e := by
+  intro e; cases e <;> decide +kernel
+
+/-- `hmode` is needed: joining a row by type reorders it (tap, mine, tap ↦ tap, tap, mine) -/
+example :
+    let ns := [nt 0 0 cTAP, nt 0 1 cMINE, nt 0 2 cTAP]
+    let o : GOpts := { incl := [cTAP, cMINE], sameBeat := .joinByType }
+    SortedStream ns ∧ (groupNotes o ns).bind (ungroupNotes .raise) = .ok [nt 0 0 cTAP, nt 0 2 cTAP, nt 0 1 cMINE] ∧
+      Spec.survivors o ns = ns := by
+  refine ⟨⟨?_, ?_, ?_⟩, ?_, ?_⟩ <;> decide +kernel
+
+/-- the position order is needed: a tail placed before its head in the list comes back after it -/
+example :
+    let ns := [nt 0 0 cHOLD, nt 2 1 cTAP, nt 1 0 cTAIL]
+    (groupNotes (exOpts .keep .keep .keepSeparate) ns).bind (ungroupNotes .raise) =
+      .ok [nt 0 0 cHOLD, nt 1 0 cTAIL, nt 2 1 cTAP] ∧
+    Spec.survivors (exOpts .keep .keep .keepSeparate) ns = ns := by
+  refine ⟨?_, ?_⟩ <;> decide +kernel
+
+/-- a single player is needed: grouping joins a head to a tail of another player, ungrouping
+rebuilds the tail with the head's player -/
+example :
+    let ns := [nt 0 0 cHOLD, { nt 1 0 cTAIL with player := 1 }]
+    (groupNotes (exOpts .keep .keep .keepSeparate) ns).bind (ungroupNotes .raise) =
+      .ok [nt 0 0 cHOLD, nt 1 0 cTAIL] ∧
+    Spec.survivors (exOpts .keep .keep .keepSeparate) ns = ns := by
+  refine ⟨?_, ?_⟩ <;> decide +kernel
+
+/-- tails without keysound are needed: the keysound of a joined tail is not kept in the group -/
+example :
+    let ns := [nt 0 0 cHOLD, { nt 1 0 cTAIL with keysound := some 7 }]
+    (groupNotes (exOpts .keep .keep .keepSeparate) ns).bind (ungroupNotes .raise) =
+      .ok [nt 0 0 cHOLD, nt 1 0 cTAIL] ∧
+    Spec.survivors (exOpts .keep .keep .keepSeparate) ns = ns := by
+  refine ⟨?_, ?_⟩ <;> decide +kernel
+
+end Simfile.C10
